@@ -8,13 +8,14 @@ def fixbytes(n, name='value'):
 
 
 def run(prog, qual, args, kwargs=None, bind=None, unroll=1, may_raise=True, depth=8, budget=20000,
-        loop_hook=None, merge=False):
+        loop_hook=None, merge=False, unique=False):
     f = prog.func(qual)
     ip = Interp(prog, max_paths=budget)
     ip.while_unroll = unroll
     ip.unpack_may_raise = may_raise
     ip.max_depth = depth
     ip.loop_hook = loop_hook
+    ip.unique_opaque_calls = unique
     if merge:
         ip.merge_loops = True
         ip.merge_ignore_actions = True
